@@ -21,7 +21,8 @@ CONSTANTS ALLSETUPS, \* FALSE: the server-side set-up only with a few leftover s
 S2(a, ab, b, bb) == [msgs |-> <<a, b>>, be |-> <<ab, bb>>]
 StreamsQuick == {S2("sig0", FALSE, "call1", FALSE), S2("sig2", TRUE, "sigs", FALSE)}
 StreamsThorough == StreamsQuick \cup {S2("call1", FALSE, "sig2", TRUE), S2("call1", TRUE, "call1", TRUE), S2("sigs", FALSE, "sig2", FALSE), S2("sig0", FALSE, "sig0", TRUE)}
-TailsAll == {"big_body_le", "big_body_be", "big_fields", "max_u32", "limit_plus1", "limit_plus1_be"}
+\* (limit_pad*: 16 + fields + body is within the limit, the total with the padding before the body is 1 / 7 bytes above)
+TailsAll == {"big_body_le", "big_body_be", "big_fields", "max_u32", "limit_plus1", "limit_plus1_be", "limit_pad1", "limit_pad7_be"}
 
 Tags == {"h", "x", "f", "b", "i", "e"}
 Pos(n) == {<<m, t>> : m \in 1..n, t \in Tags}
